@@ -29,6 +29,10 @@ func init() {
 		Run: runC12,
 	})
 	addMutants("C12",
+		mutant{"short datagram re-parks the read-all", "packet.go",
+			"\tif err == sonicerrors.ErrWouldBlock {\n\t\tc.scheduleRead(b, readBytes, readAll, cb)", "\tif err == sonicerrors.ErrWouldBlock || err == nil {\n\t\tc.scheduleRead(b, readBytes, readAll, cb)", "C12-R1"},
+		mutant{"peer write parked after it succeeded", "multicast/peer.go",
+			"\tn, err := p.Write(b, addr)\n\n\tif err == nil {\n\t\tfn(err, n)\n\t\treturn\n\t}\n", "\tn, err := p.Write(b, addr)\n\n\tif err == nil && n == len(b) {\n\t\tfn(err, n)\n\t\treturn\n\t}\n\tif err == nil {\n\t\tp.scheduleWrite(fn)\n\t\treturn\n\t}\n", "C12-R1"},
 		mutant{"recvfrom reports a shifted port", "socket.go",
 			"return n, netip.AddrPortFrom(netip.AddrFrom4(sa.Addr), uint16(sa.Port)), err", "return n, netip.AddrPortFrom(netip.AddrFrom4(sa.Addr), uint16(sa.Port>>8)), err", "C12-R1"},
 		mutant{"recvfrom reports the sender of an earlier datagram", "socket.go",
@@ -85,7 +89,7 @@ func runC12(c *Ctx) {
 	}
 
 	// ------------------------------------------------------------------------------------------------ R1
-	c.rule("C12-R1", "one recvfrom / sendto per attempt, outside loops; count, sender and destination flow from / into that call", 8)
+	c.rule("C12-R1", "one recvfrom / sendto per attempt, outside loops; count, sender and destination flow from / into that call; an operation is parked only when its attempt failed", 10)
 	recvfrom, sendto := p.ExtFunc("syscall", "Recvfrom"), p.ExtFunc("syscall", "Sendto")
 	for _, spec := range []struct {
 		pkg, typ, name string
@@ -271,6 +275,66 @@ func runC12(c *Ctx) {
 				}
 			}
 		}
+	}
+
+	// a datagram operation is parked only when its attempt failed (would block): parking after a successful receive consumes
+	// the datagram without completing the read (the next one overwrites it); parking after a successful send emits it twice
+	for _, spec := range []struct{ pkg, typ, fn, transfer, park string }{
+		{"sonic", "packetConn", "asyncReadNow", "ReadFrom", "scheduleRead"},
+		{"sonic", "packetConn", "asyncWriteToNow", "WriteTo", "scheduleWrite"},
+		{"multicast", "UDPPeer", "asyncReadNow", "Read", "scheduleRead"},
+		{"multicast", "UDPPeer", "asyncWriteNow", "Write", "scheduleWrite"},
+	} {
+		fn := p.Method(spec.pkg, spec.typ, spec.fn)
+		transfer, park := p.Method(spec.pkg, spec.typ, spec.transfer), p.Method(spec.pkg, spec.typ, spec.park)
+		paths, overflow := enumPaths(fn)
+		if overflow {
+			c.unproven(fn, "park only on failure", fn.Pos(), "too many paths")
+			continue
+		}
+		good, n := true, 0
+		var at token.Pos
+		for _, path := range paths {
+			if path.Panics {
+				continue
+			}
+			var errv ssa.Value
+			parked := false
+			var parkPos token.Pos
+			for _, in := range path.Instrs() {
+				if isCallToFn(in, transfer) {
+					call := in.(*ssa.Call)
+					if tup, ok := call.Type().(*types.Tuple); ok {
+						errv = extractOf(call, tup.Len()-1)
+					} else {
+						errv = call
+					}
+				}
+				if isCallToFn(in, park) {
+					parked, parkPos = true, in.Pos()
+				}
+			}
+			if !parked {
+				continue
+			}
+			n++
+			failed := errv != nil && path.nilness(errv) == "nonnil"
+			if errv != nil && !failed {
+				// `err == Sentinel` on the path settles it (a path that also assumes err == nil is infeasible)
+				for _, l := range path.Lits {
+					if sx, isSent := sentinelEq(l.Lit, false); isSent && (path.eval(sx, l.At) == errv || strip(sx) == errv) {
+						failed = true
+					}
+				}
+			}
+			if !failed {
+				good, at = false, parkPos
+			}
+		}
+		if n == 0 {
+			at = fn.Pos()
+		}
+		c.check(good && n > 0, fn, "park only on failure", at, "the operation is parked only on paths on which the attempt returned an error", spec.fn+" can park the operation although "+spec.transfer+" succeeded: a received datagram is consumed without completing the read (the next one overwrites it), a sent datagram is sent again by the handler")
 	}
 
 	// ------------------------------------------------------------------------------------------------ R2
